@@ -22,6 +22,8 @@ def case_st(draw):
         c["flen"] = draw(st.sampled_from(LEN_CLASSES))
         c["kind"] = draw(st.sampled_from(["text", "rand", "cr"]))
         c["nfiles"] = draw(st.sampled_from([1, 3, 31]))
+        # all bodies tiny: the first refused write is then that of an .inf file (extract-files)
+        c["tiny"] = draw(st.booleans())
         c["tracks"] = draw(st.sampled_from([40, 80]))
     else:
         c["cmd"] = draw(st.sampled_from(BASIC_CMDS))
@@ -160,6 +162,8 @@ class C11(CheckBase):
         names = [b"F%d" % i for i in range(n)]
         for i in range(n):
             ln = flen if i == 0 else (i * 37) % 700
+            if case.get("tiny"):
+                ln = (flen if flen <= 2 else 0) if i == 0 else (i * 7) % 30
             nsec = disc.sectors_of(ln)
             if cur + nsec > total:
                 ln, nsec = 0, 0
